@@ -403,6 +403,10 @@ def weights_cases(draw):
         c = dict(fn=fn, ws=ws, mass=m, zsum=False, zmass=1.0)
         if fn == 'normalize' and draw(st.integers(0, 3)) == 0:
             c['mass'] = draw(st.sampled_from(['l1', 'l2', 'l3', 'l2']))
+            if draw(st.integers(0, 2)) == 0 and kind != 'signed':
+                i = draw(st.integers(0, n - 1))
+                if i != keep:
+                    ws[i] = draw(st.sampled_from([1e-170, 1e-200, 3e-180]))
         elif m == 0.0 and draw(st.booleans()):
             c['zsum'] = True; c['zmass'] = draw(st.sampled_from([1.0, 2.0, 0.5]))
         return c
@@ -452,6 +456,9 @@ def weights_cases(draw):
     return c
 
 
+TINY = [1e-170, -1e-200, 3e-180, 1e-120]
+
+
 def coord():
     return st.one_of(st.sampled_from([0.0, 1.0, -1.0, 2.0, 0.5, 3.0, -4.0]), st.integers(-20, 20).map(float),
                      st.floats(-50, 50, allow_nan=False).map(lambda v: round(v, 3) + 0.0))
@@ -470,6 +477,13 @@ def dist_cases(draw):
           for _ in range(m)]
     nv = draw(st.integers(1, 8))
     v = [draw(st.one_of(st.just(0.0), coord())) for _ in range(nv)]
+    if draw(st.integers(0, 3)) == 0:
+        # one or two entries that are tiny next to the others: their p-th power underflows to zero,
+        # which is harmless (the textbook value does not notice them)
+        for _ in range(draw(st.integers(1, 2))):
+            i = draw(st.integers(0, nv - 1)); v[i] = draw(st.sampled_from(TINY))
+            if draw(st.booleans()):
+                r = draw(st.integers(0, n - 1)); k = draw(st.integers(0, d - 1)); X[r][k] = draw(st.sampled_from(TINY))
     return dict(mode=mode, X=X, XP=XP, p=draw(st.sampled_from([1, 2, 3, 5, 'inf'])),
                 v=v, lp=draw(st.sampled_from([0, 1, 2, 3, 'inf'])), axis=draw(st.sampled_from([0, 1])))
 
@@ -957,6 +971,8 @@ def run_dist(case, ctx):
                lambda: dict(X=X, p=case['lp'], axis=ax, got=fl(got), want=want))
     if any(t == 0 for t in v):
         ctx.label('lnorm-zeros')
+    if any(0 < abs(t) < 1e-100 for t in v):
+        ctx.label('lnorm-tiny')
     # --- metrics
     names = ['chebyshev', 'hamming', 'minkowski', 'euclidean', 'manhattan']
 
